@@ -8,6 +8,7 @@ import (
 	"io"
 	"regexp"
 	"slices"
+	"strings"
 
 	"github.com/dpb587/rdfkit-go/encoding"
 	"github.com/dpb587/rdfkit-go/encoding/jsonld/jsonldcontent"
@@ -163,27 +164,13 @@ func (e *Encoder) buildResource(builder *rdfdescription.ResourceListBuilder, res
 
 			switch obj := statementT.Object.(type) {
 			case rdf.IRI:
-				var wrapID string
-
-				if pr, ok := e.prefixes.CompactPrefix(string(obj)); ok {
-					wrapID = pr.String()
-				} else if e.base != nil {
-					if rel, ok := e.base.RelativizeIRI(string(obj)); ok {
-						wrapID = rel
-					} else {
-						wrapID = string(obj)
-					}
-				} else {
-					wrapID = string(obj)
-				}
-
 				if predicate == rdfiri.Type_Property {
 					// only an IRI can be a value of @type; any other object of rdf:type is written as a property
 					typeValue = true
-					statementObject = wrapID
+					statementObject = e.compactVocabIRI(string(obj))
 				} else {
 					statementObject = map[string]any{
-						"@id": wrapID,
+						"@id": e.compactDocumentIRI(string(obj)),
 					}
 				}
 			case rdf.BlankNode:
@@ -202,17 +189,9 @@ func (e *Encoder) buildResource(builder *rdfdescription.ResourceListBuilder, res
 				case obj.Datatype == xsdiri.Boolean_Datatype && obj.LexicalForm == "false":
 					statementObject = false
 				default:
-					pr, ok := e.prefixes.CompactPrefix(string(obj.Datatype))
-					if ok {
-						statementObject = map[string]any{
-							"@value": obj.LexicalForm,
-							"@type":  pr.String(),
-						}
-					} else {
-						statementObject = map[string]any{
-							"@value": obj.LexicalForm,
-							"@type":  string(obj.Datatype),
-						}
+					statementObject = map[string]any{
+						"@value": obj.LexicalForm,
+						"@type":  e.compactVocabIRI(string(obj.Datatype)),
 					}
 
 					if obj.Datatype == rdfiri.LangString_Datatype {
@@ -230,12 +209,12 @@ func (e *Encoder) buildResource(builder *rdfdescription.ResourceListBuilder, res
 			panic(fmt.Errorf("unsupported statement type: %T", statementT))
 		}
 
-		var key string = string(predicate)
+		var key string
 
 		if typeValue {
 			key = "@type"
-		} else if pr, ok := e.prefixes.CompactPrefix(string(predicate)); ok {
-			key = pr.String()
+		} else {
+			key = e.compactVocabIRI(string(predicate))
 		}
 
 		graphProperties[key] = append(graphProperties[key], statementObject)
@@ -245,17 +224,7 @@ func (e *Encoder) buildResource(builder *rdfdescription.ResourceListBuilder, res
 
 	switch v := resource.GetResourceSubject().(type) {
 	case rdf.IRI:
-		if pr, ok := e.prefixes.CompactPrefix(string(v)); ok {
-			graphItem["@id"] = pr.String()
-		} else if e.base != nil {
-			if rel, ok := e.base.RelativizeIRI(string(v)); ok {
-				graphItem["@id"] = rel
-			} else {
-				graphItem["@id"] = string(v)
-			}
-		} else {
-			graphItem["@id"] = string(v)
-		}
+		graphItem["@id"] = e.compactDocumentIRI(string(v))
 	case rdf.BlankNode:
 		if root {
 			if builder.GetBlankNodeReferences(v) > 0 {
@@ -292,7 +261,49 @@ func (e *Encoder) buildResource(builder *rdfdescription.ResourceListBuilder, res
 	return graphItem
 }
 
+// compactVocabIRI writes an IRI that is read back relative to the vocabulary (property keys, values of
+// @type): a compact IRI if a prefix applies, otherwise the IRI itself. References relative to the base
+// are not used here since a reader tries them as terms first.
+func (e *Encoder) compactVocabIRI(v string) string {
+	if pr, ok := e.prefixes.CompactPrefix(v); ok && !strings.HasPrefix(pr.Reference, "//") {
+		// "prefix://..." would be read back as an IRI with scheme "prefix"
+		return pr.String()
+	}
+
+	return v
+}
+
+// compactDocumentIRI writes an IRI that is read back relative to the document (values of @id): a
+// compact IRI if a prefix applies, otherwise a reference relative to the base, otherwise the IRI itself.
+func (e *Encoder) compactDocumentIRI(v string) string {
+	if pr, ok := e.prefixes.CompactPrefix(v); ok && !strings.HasPrefix(pr.Reference, "//") {
+		return pr.String()
+	} else if e.base != nil {
+		// "@type", "@foo", ... would be read back as a keyword
+		if rel, ok := e.base.RelativizeIRI(v); ok && !reKeywordForm.MatchString(rel) {
+			return rel
+		}
+	}
+
+	return v
+}
+
+// isPrefixTerm reports whether a mapping can be declared in @context such that "prefix:reference" is
+// read back as the concatenation: the prefix must be a term a reader accepts (not empty, not "_" which
+// denotes blank nodes, no ':' or '/', not of the form of a keyword) and the namespace must end in a
+// gen-delim character (json-ld-1.1 only uses such simple term definitions as prefixes).
+func isPrefixTerm(mapping iri.PrefixMapping) bool {
+	if len(mapping.Prefix) == 0 || mapping.Prefix == "_" || strings.ContainsAny(mapping.Prefix, ":/") || reKeywordForm.MatchString(mapping.Prefix) {
+		return false
+	} else if len(mapping.Expanded) == 0 || !strings.ContainsRune(":/?#[]@", rune(mapping.Expanded[len(mapping.Expanded)-1])) {
+		return false
+	}
+
+	return true
+}
+
 var (
+	reKeywordForm   = regexp.MustCompile(`^@[a-zA-Z]+$`)
 	reNativeInteger = regexp.MustCompile(`^-?(0|[1-9][0-9]{0,14})$`)
 	reNativeDouble  = regexp.MustCompile(`^-?(0|[1-9][0-9]*)(\.[0-9]+)?([eE][+-]?[0-9]{1,2})?$`)
 )
